@@ -163,9 +163,11 @@ def c01(pid, tier, seed, t0):
 WALK_FEATURES = ("castle_kingside", "castle_queenside", "castle_white", "castle_black", "en_passant_capture",
                  "promotion_Q", "promotion_R", "promotion_B", "promotion_N", "promotion_N_capture",
                  "rook_captured_on_home_square", "null_move", "undo_null", "undo_move", "nesting_ge_20",
-                 "null_move_with_ep_target_pending", "root_with_clock_ge_255", "root_with_large_move_number")
+                 "null_move_with_ep_target_pending", "root_with_clock_ge_255", "root_with_large_move_number",
+                 "nesting_ge_300_then_unwound")
 WALK_ASSUME = ["oracle = refchess advanced by the same moves (rules), pre-move snapshots (reversibility)",
-               "histories are sampled; nesting depth <= 40, as deep as a search of the default depth limits goes"]
+               "histories are sampled; nesting depth <= 40 in most walks, one walk in 24 dives 300..700 plies deep and takes "
+               "everything back"]
 
 
 def c02(pid, tier, seed, t0):
@@ -183,7 +185,7 @@ def c02(pid, tier, seed, t0):
 def c03(pid, tier, seed, t0):
     stages = [H("walk-checked", "c03", "checked", args={"quick": ["--scale", "3"], "thorough": ["--scale", "1"]}),
               H("walk-opt", "c03", "opt", group="c03-opt", args={"quick": ["--scale", "1"], "thorough": ["--scale", "1"]})]
-    return run_stages(pid, tier, seed, t0, "exploration", stages, required=WALK_FEATURES + ("transposition_pairs_compared",),
+    return run_stages(pid, tier, seed, t0, "exploration", stages, required=WALK_FEATURES + ("transposition_pairs_compared", "reader_accepted_texts_with_unfitting_fields"),
                       assumptions=WALK_ASSUME + ["'different keys on everything explored' is claimed for the positions "
                                                  "in the run-wide map only (capped, see x_positions_in_collision_map)"])
 
@@ -340,7 +342,7 @@ def c08(pid, tier, seed, t0):
                                                   "mate_distance_3", "mate_distance_5", "searches_on_used_tables",
                                                   "binary_info_lines", "binary_mate_announcements",
                                                   "binary_searches_reporting_lines_of_32_plies_or_more",
-                                                  "binary_searches_running_out_of_depths"),
+                                                  "binary_searches_running_out_of_depths", "binary_info_lines_during_isready_flood"),
                       assumptions=["oracle = refchess replay of every reported line"])
 
 
@@ -361,7 +363,7 @@ def c09(pid, tier, seed, t0):
 def c12(pid, tier, seed, t0):
     stages = [H("determinism-checked", "c12", "checked"), P("ucinewgame-binary", _pm2("c12_stage"))]
     return run_stages(pid, tier, seed, t0, "exploration", stages,
-                      required=("binary_ucinewgame_right_after_bestmove_with_delay", "binary_ucinewgame_then_go_without_position", "binary_fresh_engine_without_any_preamble", "reset_then_compare_with_fresh", "second_run_under_load",
+                      required=("binary_ucinewgame_right_after_bestmove_with_delay", "binary_ucinewgame_then_go_without_position", "binary_fresh_engine_without_any_preamble", "lockstep_searches_compared", "reset_then_compare_with_fresh", "second_run_under_load",
                                 "long_chain_ge_255_generations", "hash_1mb", "hash_64mb"),
                       assumptions=["transcript = best move + depth, seldepth, score, nodes, hashfull, line of every "
                                    "iteration; time and nps excluded"])
@@ -372,7 +374,7 @@ def c14(pid, tier, seed, t0):
               H("limits-opt", "c14", "opt", group="c14-opt"),
               P("timed-release", _pm2("c14_stage"))]
     return run_stages(pid, tier, seed, t0, "exploration", stages,
-                      required=("timed_searches", "timed_searches_at_200ms", "timed_searches_quiescence_heavy", "timed_searches_after_option_in_bestmove_window", "timed_searches_whose_thread_started_after_the_clock_ran_out", "timed_long_sessions_past_256_searches", "movetime_with_overhead_cases", "grid_tuples", "random_tuples", "remaining_below_200ms",
+                      required=("timed_searches", "timed_searches_at_200ms", "timed_searches_quiescence_heavy", "timed_searches_after_option_in_bestmove_window", "timed_searches_whose_thread_started_after_the_clock_ran_out", "timed_searches_with_only_the_movers_clock", "timed_long_sessions_past_256_searches", "movetime_with_overhead_cases", "grid_tuples", "random_tuples", "remaining_below_200ms",
                                 "only_one_sides_time_supplied", "moves_to_go_1", "moves_to_go_u32_max",
                                 "overhead_exactly_half", "fixed_movetime_cases"),
                       assumptions=["limits read through hook H2", "bound checked with a tolerance of one f32 ulp of the "
@@ -410,7 +412,7 @@ def c13(pid, tier, seed, t0):
                       required=("option_Hash_values", "option_Threads_values", "option_Move_Overhead_values", "hash_0",
                                 "hash_1024", "values_set_before_first_search", "values_set_between_searches",
                                 "sessions_setting_options_right_after_bestmove", "values_set_after_the_position_command",
-                                "values_followed_by_ucinewgame"),
+                                "values_followed_by_ucinewgame", "values_sent_a_second_time"),
                       assumptions=["the quantifier is what the binary itself advertises in its 'option' lines",
                                    "the free-text SyzygyPath option is outside the property"])
 
